@@ -16,7 +16,7 @@ exec(open(os.path.join(HERE, 'mutants.py')).read())
 bad = 0
 wanted = {m_[0] + '.patch' for m_ in M}
 for f_ in os.listdir(HERE):
-    if f_.endswith('.patch') and f_ not in wanted:
+    if f_.endswith('.patch') and f_ not in wanted and not f_.startswith('h-'):      # h-*.patch are copies of seeded/<id>/patch.diff with a header, not generated from mutants.py
         os.remove(os.path.join(HERE, f_))
 for name, props, expect, edits, note in M:
     out = ['# property: %s' % ','.join(props)]
